@@ -10,6 +10,11 @@ A key whose deadline is <= now does not exist for any command (and is dropped fr
 other harness code reads directly).  Plain SET / GETSET / SETNX-on-a-missing-key / DEL clear an expiry,
 APPEND and SETRANGE keep it, as in redis.
 
+Connection faults: `conn.drop_next_command('before')` / `('after')` makes the NEXT command of that connection fail with
+redis.ConnectionError - either before it reaches the server (nothing is applied) or after the server applied it (the
+reply is lost).  The connection works again for the command after that (redis-py reconnects by itself).  The command is
+recorded in `trace` (result as applied, None when it never arrived) and in `server.faults` = [(trace index, mode)].
+
 Use `install(server)` to make `redis.Redis(**params)` return clients of `server` for code that
 constructs its own connection (jug.backends.redis_store.redis_store)."""
 import datetime
@@ -24,6 +29,7 @@ class FakeServer:
         self.expires = {}           # key -> deadline on the server clock (absent: no expiry)
         self.now = 0.0              # the server clock, in seconds; moved by advance() only
         self.expired_log = []       # (time, key) of every key that expired
+        self.faults = []            # (index into trace, 'before' | 'after') of every command lost with its connection
         self.lock = threading.RLock()
         self.trace = []
         self.hook = None
@@ -70,19 +76,44 @@ def _secs(x):
     return x
 
 
+def connection_error(msg):
+    try:
+        import redis
+        return redis.ConnectionError(msg)
+    except ImportError:
+        return ConnectionError(msg)
+
+
 class FakeRedis:
     def __init__(self, server, cid):
         self.server = server
         self.cid = cid
+        self.drop_next = None       # None | 'before' | 'after'
+
+    def drop_next_command(self, mode):
+        """the next command of this connection is lost with the connection: 'before' it reaches the server (not applied) or
+        'after' the server applied it (reply lost); the caller sees redis.ConnectionError"""
+        if mode not in ('before', 'after', None):
+            raise ValueError(mode)
+        self.drop_next = mode
 
     def _cmd(self, name, args, fn):
         s = self.server
         if s.hook is not None:
             s.hook(self.cid, name, args)
+        mode, self.drop_next = self.drop_next, None
         with s.lock:
             s.purge()
+            if mode == 'before':
+                s.faults.append((len(s.trace), mode))
+                s.trace.append((self.cid, name, args, None))
+                raise connection_error('Connection reset by peer (simulated: %s never reached the server)' % name)
             res = fn(s.data)
+            if mode == 'after':
+                s.faults.append((len(s.trace), mode))
             s.trace.append((self.cid, name, args, res))
+        if mode == 'after':
+            raise connection_error('Connection reset by peer (simulated: the reply to %s was lost)' % name)
         return res
 
     def get(self, k):
